@@ -335,9 +335,37 @@ var decodeCache = map[[20]byte]decoded{}
 
 type decoded struct {
 	n   int
-	sum [20]byte
+	sum [20]byte // of the decoded bytes, clock-dependent sfnt fields blanked
 	hd  [4]byte
 	err string
+}
+
+// maskSFNT blanks what the font subsetter derives from the wall clock: head.modified, and with
+// it head.checkSumAdjustment and the directory checksum of the head table.
+func maskSFNT(b []byte) []byte {
+	if len(b) < 12 || (string(b[:4]) != "OTTO" && string(b[:4]) != "\x00\x01\x00\x00" && string(b[:4]) != "true") {
+		return b
+	}
+	n := int(b[4])<<8 | int(b[5])
+	for i := 0; i < n; i++ {
+		rec := 12 + 16*i
+		if rec+16 > len(b) {
+			return b
+		}
+		if string(b[rec:rec+4]) != "head" {
+			continue
+		}
+		off := int(b[rec+8])<<24 | int(b[rec+9])<<16 | int(b[rec+10])<<8 | int(b[rec+11])
+		if off < 0 || off+36 > len(b) {
+			return b
+		}
+		out := append([]byte{}, b...)
+		copy(out[rec+4:rec+8], []byte{0, 0, 0, 0})
+		copy(out[off+8:off+12], []byte{0, 0, 0, 0})
+		copy(out[off+28:off+36], []byte{0, 0, 0, 0, 0, 0, 0, 0})
+		return out
+	}
+	return b
 }
 
 func decodeStream(s *pdfread.Stream) (decoded, []byte) {
@@ -361,7 +389,7 @@ func decodeStream(s *pdfread.Stream) (decoded, []byte) {
 	if err != nil {
 		d.err = err.Error()
 	} else {
-		d.sum = sha1.Sum(b)
+		d.sum = sha1.Sum(maskSFNT(b))
 		copy(d.hd[:], b)
 	}
 	if len(s.Raw) > 4096 {
@@ -440,8 +468,9 @@ func checkTextField(f *findings, class, where string, obj pdfread.Object, presen
 
 const ptPerMm = 72 / 25.4
 
-func validate(data []byte, m model, r *fw.R) []finding {
+func validate(data []byte, m model, r *fw.R) (list []finding, key [20]byte) {
 	f := &findings{}
+	key = sha1.Sum(maskDate(data)) // replaced by the structural key once the file parses
 	d, err := pdfread.Parse(data)
 	if err != nil {
 		class := "parse"
@@ -449,7 +478,7 @@ func validate(data []byte, m model, r *fw.R) []finding {
 			class = fe.Class
 		}
 		f.add(class, "%v", err)
-		return f.list
+		return f.list, key
 	}
 	cut := false
 	for _, p := range d.Problems {
@@ -468,7 +497,15 @@ func validate(data []byte, m model, r *fw.R) []finding {
 	}
 	if cut {
 		r.Outcome("validation-cut-short:object-syntax")
-		return f.list
+		dec := map[int]decoded{}
+		for n, o := range d.Objects {
+			if st, ok := o.Value.(*pdfread.Stream); ok {
+				if dc, _ := decodeStream(st); dc.err == "" {
+					dec[n] = dc
+				}
+			}
+		}
+		return f.list, stateKey(d, dec)
 	}
 	for _, p := range d.Problems {
 		f.add(p.Class, "%s", p.Detail)
@@ -516,6 +553,7 @@ func validate(data []byte, m model, r *fw.R) []finding {
 			checkImage(f, d, n, st, dc)
 		}
 	}
+	key = stateKey(d, decodedOf)
 	r.Max("objects", float64(len(d.Objects)))
 	r.Max("streams", float64(streams))
 
@@ -682,7 +720,7 @@ func validate(data []byte, m model, r *fw.R) []finding {
 			r.Outcome("lang:present")
 		}
 	}
-	return f.list
+	return f.list, key
 }
 
 func keys(d pdfread.Dict) string {
@@ -784,6 +822,78 @@ func checkFont(f *findings, d *pdfread.Doc, where string, name pdfread.Name, fd 
 }
 
 // ---------------------------------------------------------------------------------------------
+// state identity
+
+// canon writes a canonical rendering of an object: dictionary keys sorted, streams replaced by
+// the digest of their decoded data, /Length and the clock-dependent /CreationDate left out.
+func canon(w *bytes.Buffer, o pdfread.Object, dec map[int]decoded, num int) {
+	switch v := o.(type) {
+	case nil:
+		w.WriteString("null ")
+	case bool, int64, float64:
+		fmt.Fprintf(w, "%v ", v)
+	case pdfread.Name:
+		fmt.Fprintf(w, "/%q ", string(v))
+	case pdfread.String:
+		fmt.Fprintf(w, "(%q) ", string(v.B))
+	case pdfread.Ref:
+		fmt.Fprintf(w, "%dR%d ", v.Num, v.Gen)
+	case pdfread.Array:
+		w.WriteString("[ ")
+		for _, e := range v {
+			canon(w, e, dec, -1)
+		}
+		w.WriteString("] ")
+	case pdfread.Dict:
+		ks := make([]string, 0, len(v))
+		for k := range v {
+			if k != "Length" && k != "CreationDate" {
+				ks = append(ks, string(k))
+			}
+		}
+		sort.Strings(ks)
+		w.WriteString("<< ")
+		for _, k := range ks {
+			fmt.Fprintf(w, "/%q ", k)
+			canon(w, v[pdfread.Name(k)], dec, -1)
+		}
+		w.WriteString(">> ")
+	case *pdfread.Stream:
+		canon(w, v.Dict, dec, -1)
+		if dc, ok := dec[num]; ok {
+			fmt.Fprintf(w, "stream:%d:%x ", dc.n, dc.sum)
+		} else {
+			fmt.Fprintf(w, "rawstream:%x ", sha1.Sum(v.Raw))
+		}
+	}
+}
+
+// stateKey identifies a document by its parsed structure (not by its bytes: the font
+// subsetter stamps the current time into the font program, which changes compressed lengths
+// and with them every later offset).
+func stateKey(d *pdfread.Doc, dec map[int]decoded) [20]byte {
+	return sha1.Sum(stateText(d, dec))
+}
+
+func stateText(d *pdfread.Doc, dec map[int]decoded) []byte {
+	var w bytes.Buffer
+	nums := make([]int, 0, len(d.Objects))
+	for n := range d.Objects {
+		nums = append(nums, n)
+	}
+	sort.Ints(nums)
+	for _, n := range nums {
+		fmt.Fprintf(&w, "%d: ", n)
+		canon(&w, d.Objects[n].Value, dec, n)
+		w.WriteByte('\n')
+	}
+	w.WriteString("trailer: ")
+	canon(&w, d.Trailer, dec, -1)
+	fmt.Fprintf(&w, "body=%d xref=%d", len(d.Body), len(d.Xref))
+	return w.Bytes()
+}
+
+// ---------------------------------------------------------------------------------------------
 // families
 
 var seenDocs = map[[20]byte]struct{}{}
@@ -835,14 +945,15 @@ func family(name string, alpha []action, depth int, opts []options) fw.Family {
 				r.Violate("panic: "+pan, "the writer panicked instead of producing a document: "+pan)
 				return
 			}
-			h := sha1.Sum(maskDate(data))
+			fs, h := validate(data, m, r)
+			r.Validated++
 			if _, dup := seenDocs[h]; !dup {
 				seenDocs[h] = struct{}{}
 				r.States++
 			}
+			r.SetFamily("documents") // distinct documents are counted across all families
 			r.Nontrivial(fmt.Sprintf("%x", h[:12]))
-			fs := validate(data, m, r)
-			r.Validated++
+			r.SetFamily(name)
 			r.Max("bytes", float64(len(data)))
 			if len(fs) == 0 {
 				r.Outcome("valid")
